@@ -38,6 +38,11 @@ where
 }
 
 pub fn until_next_unindented(input: &str, at_least_until: usize, fallback_len: usize) -> &str {
+    // The error may sit at the very end of the input or inside a multi-byte character
+    let mut at_least_until = at_least_until.min(input.len());
+    while !input.is_char_boundary(at_least_until) {
+        at_least_until += 1;
+    }
     let mut prev_was_newline = false;
     for (idx, ch) in input[at_least_until..].char_indices() {
         if prev_was_newline && ch.is_ascii_alphanumeric() {
@@ -48,7 +53,11 @@ pub fn until_next_unindented(input: &str, at_least_until: usize, fallback_len: u
     }
 
     // No match found, use fallback
-    input[..input.len().min(fallback_len)].trim()
+    let mut fallback_len = input.len().min(fallback_len);
+    while !input.is_char_boundary(fallback_len) {
+        fallback_len -= 1;
+    }
+    input[..fallback_len].trim()
 }
 
 pub fn hex_to_bools(c: char) -> [bool; 4] {
@@ -171,7 +180,7 @@ pub fn take_until_unbalanced<'a>(
             } else if tag::<&str, Input<'_>, Error<Input<'_>>>(closing_tag)(input).is_ok() {
                 bracket_counter -= 1;
                 index += closing_tag.len();
-            } else if index == i.len() - 1 {
+            } else if index + 1 >= i.len() {
                 break 'consume;
             } else {
                 let c = i.slice(index..).inner().chars().next().unwrap_or_default();
